@@ -35,6 +35,9 @@ class Spec(CheckSpec):
         for rep in range(reps):
             for name in ("uc7_config.yaml", "uc7_config_tap003.yaml"):
                 yield {"seed": base_seed * 1000003 + 992000 + rep * 10 + len(name), "shipped": name, "max_episode_length": 128, "n_ops": 110, "monitors": ["c19"], "op_mix": {"step": 0.95, "reset": 0.01, "fault": 0.04}}
+        for k in range(8 if tier == "quick" else 100):
+            s = base_seed * 1000003 + 993000 + k
+            yield {"seed": s, "shipped": "uc7_config.yaml" if k % 2 else "uc7_config_tap003.yaml", "tap_variation": s, "max_episode_length": 100, "n_ops": 90, "monitors": ["c19"], "op_mix": {"step": 0.95, "reset": 0.01, "fault": 0.04}}
         for i in range(n):
             seed = base_seed * 1000003 + 190000000 + i
             prof = {"obs": False, "n_green": (1, 3), "n_red": (1, 3), "episode_len": (25, 50), "avoid": ["listen_on_ports", "routing_loop"], "tight_links": 0.05, "action_map_size": (8, 24)}
